@@ -7,7 +7,23 @@ pid = sys.argv[1]
 n = int(sys.argv[2]) if len(sys.argv) > 2 else 3
 wt = sys.argv[3] if len(sys.argv) > 3 else "/tmp/adv-" + pid
 p = [json.loads(l) for l in open(os.path.join(V, "properties.jsonl")) if json.loads(l)["id"] == pid][0]
-print(f"""You are testing how well a Go library's behaviour is pinned down. The library is zerx-lab/wordZero (pure-Go .docx library). You have your own scratch git worktree of it at {wt} (detached HEAD). Work ONLY inside {wt} (and /tmp/advout-{pid} for your output); do not read or touch /verif, /repo or any other directory under /tmp. No network. Every shell: `export GOFLAGS=-mod=mod GOPROXY=off GOSUMDB=off GOTOOLCHAIN=local`. The repository's test suite is run with: `cd {wt} && go test -vet=off -count=1 ./pkg/... ./test/...` (all tests pass on the unchanged tree; `./...` is not usable because an unrelated example does not build).
+# second and later rounds: number the changes from START and tell the agent which mechanisms were already used
+# (summaries of earlier seeded changes only - nothing about the checks)
+start = int(os.environ.get("ADV_START", "1"))
+avoid = ""
+if start > 1:
+    import glob
+    prev = []
+    for d in sorted(glob.glob(os.path.join(V, "seeded", pid + "-*"))):
+        try:
+            prev.append("  - " + " ".join(json.load(open(os.path.join(d, "meta.json"))).get("summary", "").split())[:300])
+        except Exception:
+            pass
+    if prev:
+        avoid = ("\nEarlier rounds already produced the following changes for this property; yours must differ from ALL of them in mechanism, "
+                 "in the code they touch and in what is needed to trigger them (look for other functions, other argument classes, other call "
+                 "orders, other entry points):\n" + "\n".join(prev) + "\n")
+print(f"""You are testing how well a Go library's behaviour is pinned down. The library is zerx-lab/wordZero (pure-Go .docx library). You have your own scratch git worktree of it at {wt} (detached HEAD). Work ONLY inside {wt} (and /tmp/advout-{pid} for your output); do not read or touch /verif, /repo or any other directory under /tmp. No network. Never use `git stash` (the stash is shared with other people's worktrees of the same repository) — use `git diff > file`, `git apply`, `git apply -R`, `git checkout -- .` only. Every shell: `export GOFLAGS=-mod=mod GOPROXY=off GOSUMDB=off GOTOOLCHAIN=local`. The repository's test suite is run with: `cd {wt} && go test -vet=off -count=1 ./pkg/... ./test/...` (all tests pass on the unchanged tree; `./...` is not usable because an unrelated example does not build).
 
 Here is a semantic property that the library is supposed to satisfy:
 
@@ -25,7 +41,8 @@ Your job: produce {n} DIFFERENT, independent source changes to the library (each
   4. the changes differ from each other in mechanism and in what is needed to trigger them (do not produce three variants of the same edit).
 The unchanged tree may already violate the property in some ways; your change must introduce a NEW violation (your demonstration must pass on the unchanged tree).
 
-For each change k = 1..{n} write into /tmp/advout-{pid}/k/:
+{avoid}
+For each change k = {start}..{start + n - 1} write into /tmp/advout-{pid}/k/:
   - patch.diff   : `git diff` of the change against the unchanged tree (apply-able with `git apply`);
   - demo_test.go : a Go test file (package placed so that it can be copied into {wt}/test/ or {wt}/pkg/document/ — say which in meta.json) with ONE test that FAILS with the change applied and PASSES on the unchanged tree, demonstrating the violation through the public API only;
   - meta.json    : {{"property": "{p['id']}", "summary": "<what the change does>", "needs": "<what specific sequence/input/interleaving is needed to manifest>", "demo_dir": "<test|pkg/document|pkg/style|pkg/markdown>", "demo_cmd": "<exact go test command>"}}.
